@@ -149,7 +149,9 @@ def seq_line(fn, c):
 def judge_scripts(out, stream, cases, texts):
     def view(t):          # per frame: its size, bytes 8-11 (session), 24-27 (timestamp), 40-42 (device id / login key); then the outcomes
         fs = t.split("|")
-        return " ".join("%d:%s:%s:%s" % (len(f) // 2, f[16:24], f[48:56], f[80:86]) for f in fs[:-1]) + " -> " + fs[-1]
+        # what a reply decodes to, and which exception a refused argument or a bad reply raises, are other properties' subjects (C08, C09, C02)
+        outs = ["raised" if o.startswith("exc:") else "returned" for o in fs[-1].split(";") if o]
+        return " ".join("%d:%s:%s:%s" % (len(f) // 2, f[16:24], f[48:56], f[80:86]) for f in fs[:-1]) + " -> " + ",".join(outs)
     mo = [view(t) for t in lib.run_model([seq_line("seq", c) for c in cases])]; ex = [view(t) for t in lib.run_model([seq_line("seq_spec", c) for c in cases])]
     texts = [view(t) for t in texts]
     d = lambda c: "one script of %d replies for: " % len(c["script"]) + "; ".join(oc.describe(o)[:120] for o in c["ops"])
